@@ -1331,11 +1331,15 @@ impl Collection {
                 .await
             {
                 Err(DBError::NotFound { .. }) => {}
-                Err(err) => {
-                    // Transient storage errors or corrupt objects are logged
-                    // and skipped; `reconcile_storage` remains the manual
-                    // backstop once the object is fixed. Burn the id so a
-                    // future add cannot collide with the existing object.
+                Err(err @ DBError::Serialization { .. }) => {
+                    // A corrupt object is logged and skipped;
+                    // `reconcile_storage` remains the manual backstop once
+                    // the object is fixed. Burn the id so a future add cannot
+                    // collide with the existing object. Storage-level
+                    // failures propagate instead (as in
+                    // `replay_mutation_intents`): those are transient, and
+                    // skipping the id would let the next flush move the
+                    // checkpoint past a document no later open probes again.
                     self.max_document_id.fetch_max(id, Ordering::AcqRel);
                     log::warn!(
                         action = "Collection::auto_repair_indexes",
@@ -1344,6 +1348,7 @@ impl Collection {
                         "Skipping document with unreadable object during repair scan: {err:?}",
                     );
                 }
+                Err(err) => return Err(err),
                 Ok((doc, _)) => {
                     if self.repair_document(id, doc, now_ms)? {
                         fixed += 1;
